@@ -4,17 +4,28 @@ From Coq Require Import ZArith NArith List Bool Arith Lia.
 From PydoctorVerif Require Import Base.Sexp Model.FieldTypes Gen.TablesC09 Model.EpyInline Spec.EpyMarkup.
 Import ListNotations.
 
-Lemma wf1_MT : forall p u body, wf1 p (MT u body) = plain_region u && well_formed false body.
+Lemma wf1_MT : forall gt gn p u body, wf1 gt gn p (MT u body) = plain_region u && well_formed gt gn false body.
 Proof.
-  intros p u body. cbn [wf1]. f_equal.
+  intros gt gn p u body. cbn [wf1]. f_equal.
   all: try (generalize false; induction body as [|x r IH]; intro q; [reflexivity|]; cbn [well_formed]; rewrite IH; reflexivity).
 Qed.
 
-Lemma wf1_MB : forall p body, wf1 p (MB body) = negb p && well_formed false body.
+Lemma wf1_MB : forall gt gn p body, wf1 gt gn p (MB body) = negb p && well_formed gt gn false body.
 Proof.
-  intros p body. cbn [wf1]. f_equal.
+  intros gt gn p body. cbn [wf1]. f_equal.
   all: try (generalize false; induction body as [|x r IH]; intro q; [reflexivity|]; cbn [well_formed]; rewrite IH; reflexivity).
 Qed.
+
+Lemma wf1_ML : forall gt gn p u label tail ws tgt,
+  wf1 gt gn p (ML u label tail ws tgt) =
+  link_region u && well_formed gt gn false label && ends_closed label && tail_ok tail && spaces ws && no_brace tgt && gt (link_tag u) tgt.
+Proof.
+  intros gt gn p u label tail ws tgt. cbn [wf1]. do 5 f_equal.
+  all: try (generalize false; induction label as [|x r IH]; intro q; [reflexivity|]; cbn [well_formed]; rewrite IH; reflexivity).
+Qed.
+
+Lemma mk_size_ML : forall u body a b c, mk_size (ML u body a b c) = S (mks_size body).
+Proof. intros. cbn [mk_size]. f_equal. all: try (induction body as [|x r IH]; [reflexivity|]; cbn [mks_size]; rewrite IH; reflexivity). Qed.
 
 Lemma mk_size_MT : forall u body, mk_size (MT u body) = S (mks_size body).
 Proof. intros. cbn [mk_size]. f_equal. all: try (induction body as [|x r IH]; [reflexivity|]; cbn [mks_size]; rewrite IH; reflexivity). Qed.
@@ -41,10 +52,38 @@ Proof.
   apply andb_true_iff in H1. destruct H1 as [H1 H3]. apply negb_true_iff in H1. apply negb_true_iff in H3. repeat split; assumption.
 Qed.
 
+Lemma ends_closed_cons : forall m x r, ends_closed (m :: x :: r) = ends_closed (x :: r).
+Proof.
+  intros m x r. unfold ends_closed. cbn [rev]. destruct (rev r ++ [x]) as [|y l] eqn:E.
+  - destruct (rev r); discriminate.
+  - reflexivity.
+Qed.
+
+Lemma closed_tail : forall m r (cur1 cur' : text),
+  (ends_closed r = true -> cur' = match r with [] => cur1 | _ :: _ => [] end) ->
+  (match m with MC _ => True | _ => cur1 = [] end) ->
+  ends_closed (m :: r) = true -> cur' = [].
+Proof.
+  intros m r cur1 cur' H Hm Hc. destruct r as [|x r].
+  - rewrite (H eq_refl). destruct m; try exact Hm. discriminate.
+  - rewrite ends_closed_cons in Hc. apply (H Hc).
+Qed.
+
 Section Colorize.
   Variable target_split : text -> option (text * text).
   Variable link_target : etag -> text -> option text.
+  Variable good_target : etag -> text -> bool.
+  Variable good_name : etag -> text -> bool.
+  (* contract of the two regular-expression oracles of _colorize_link on what `well_formed` lets through *)
+  Hypothesis H_split : forall tag tail ws tgt,
+    good_target tag tgt = true -> tail_ok tail = true -> spaces ws = true ->
+    target_split (tail ++ ws ++ 60%N :: tgt ++ [62%N]) = Some (tail, tgt).
+  Hypothesis H_target : forall tag tgt, good_target tag tgt = true -> exists tg, link_target tag tgt = Some tg.
+  Hypothesis H_name : forall tag name, good_name tag name = true ->
+    target_split name = None /\ exists tg, link_target tag name = Some tg.
   Notation loop := (loop target_split link_target).
+  Notation well_formed := (well_formed good_target good_name).
+  Notation wf1 := (wf1 good_target good_name).
 
   (* characters that are not braces are collected *)
   Lemma loop_plain : forall t rest pos cur stack errs, no_brace t = true ->
@@ -79,6 +118,33 @@ Section Colorize.
   Lemma visible_simple : forall tg kids, simple_tag tg -> visible (NElem tg kids) = flat_map visible kids.
   Proof. intros tg kids [-> | [-> | [-> | ->]]]; reflexivity. Qed.
 
+  Lemma link_region_tag : forall u, link_region u = true ->
+    is_upper u = true /\ exists e, assoc_N u colorizing_tags = Some e /\ link_tag u = etag_of e /\
+                                   (etag_of e = TgLink \/ etag_of e = TgUri).
+  Proof.
+    intros u H. unfold link_region, link_tag in *. destruct (assoc_N u colorizing_tags) as [[]|]; try discriminate;
+      (split; [exact H|]); eexists; (split; [reflexivity|]); (split; [reflexivity|]); cbn; auto.
+  Qed.
+
+  Lemma last_is_text_snoc : forall kids t, last_is_text (kids ++ [NText t]) = Some (kids, t).
+  Proof. intros. unfold last_is_text. rewrite rev_app_distr. cbn [rev app]. rewrite rev_involutive. reflexivity. Qed.
+
+  Lemma push_text_rev : forall t kids, t <> [] -> push_text (rev t) kids = kids ++ [NText t].
+  Proof.
+    intros t kids H. unfold push_text. destruct (rev t) eqn:Er.
+    - destruct t; [contradiction|]. apply (f_equal (@length N)) in Er. rewrite rev_length in Er. discriminate.
+    - rewrite <- Er, rev_involutive. reflexivity.
+  Qed.
+
+  Lemma forallb_app_true : forall {X} (f : X -> bool) a b, forallb f a = true -> forallb f b = true -> forallb f (a ++ b) = true.
+  Proof. intros. rewrite forallb_app. rewrite H, H0. reflexivity. Qed.
+
+  Lemma spaces_no_brace : forall ws, spaces ws = true -> no_brace ws = true.
+  Proof.
+    intros ws H. unfold spaces, no_brace in *. rewrite forallb_forall in *. intros c Hc. specialize (H c Hc).
+    apply N.eqb_eq in H. subst c. reflexivity.
+  Qed.
+
   (* the main invariant: reading the written form of well-formed items leaves the stack as it was, the top frame
      extended by what the items show *)
   Lemma loop_items : forall n items, mks_size items <= n ->
@@ -86,23 +152,24 @@ Section Colorize.
       well_formed (head_upper cur) items = true ->
       exists pos' cur' kids',
         loop (show items ++ rest) pos cur ((ttag, tkids) :: below) errs = loop rest pos' cur' ((ttag, kids') :: below) errs /\
-        flat_map visible kids' ++ rev cur' = flat_map visible tkids ++ rev cur ++ shown items.
+        flat_map visible kids' ++ rev cur' = flat_map visible tkids ++ rev cur ++ shown items /\
+        (ends_closed items = true -> cur' = match items with [] => cur | _ :: _ => [] end).
   Proof.
     induction n as [|n IHn]; intros items Hsz rest pos cur ttag tkids below errs Hwf.
     - destruct items as [|m r]; [|destruct m; cbn [mks_size mk_size] in Hsz; lia].
-      exists pos, cur, tkids. split; [reflexivity|]. cbn. rewrite app_nil_r. reflexivity.
+      exists pos, cur, tkids. split; [reflexivity|]. split; [cbn; rewrite app_nil_r; reflexivity | intros _; reflexivity].
     - destruct items as [|m r].
-      + exists pos, cur, tkids. split; [reflexivity|]. cbn. rewrite app_nil_r. reflexivity.
+      + exists pos, cur, tkids. split; [reflexivity|]. split; [cbn; rewrite app_nil_r; reflexivity | intros _; reflexivity].
       + cbn [well_formed] in Hwf. apply andb_true_iff in Hwf. destruct Hwf as [Hm Hr].
         cbn [mks_size] in Hsz. unfold show, shown. cbn [flat_map]. rewrite <- !app_assoc.
         fold (show r). fold (shown r).
-        destruct m as [c | u body | body | code | name].
+        destruct m as [c | u body | body | code | name | u label tail ws tgt | u name].
         * (* a character *)
           cbn [wf1] in Hm. destruct (no_brace_cons c [] Hm) as (H1 & H2 & _).
           cbn [show1 shown1 app EpyInline.loop]. rewrite H1, H2.
           destruct (IHn r ltac:(cbn [mk_size] in Hsz; lia) rest (S pos) (c :: cur) ttag tkids below errs Hr)
-            as (pos' & cur' & kids' & E1 & E2).
-          exists pos', cur', kids'. split; [exact E1|]. rewrite E2. cbn [rev]. rewrite <- !app_assoc. reflexivity.
+            as (pos' & cur' & kids' & E1 & E2 & E5).
+          exists pos', cur', kids'. split; [exact E1|]. split; [|intro Hc; eapply closed_tail; cycle 2; [exact Hc | exact E5 | exact I]]. rewrite E2. cbn [rev]. rewrite <- !app_assoc. reflexivity.
         * (* u{body} *)
           rewrite wf1_MT in Hm. apply andb_true_iff in Hm. destruct Hm as [Hu Hb].
           destruct (plain_region_tag u Hu) as (Hup & e & He & Hs). destruct (upper_not_brace u Hup) as [U1 U2].
@@ -110,13 +177,13 @@ Section Colorize.
           cbn [show1 shown1 app]. rewrite <- !app_assoc. cbn [app].
           cbn [EpyInline.loop]. rewrite U1, U2. cbn [EpyInline.loop]. rewrite N.eqb_refl. rewrite Hup, He.
           destruct (IHn body ltac:(lia) (RB :: show r ++ rest) (S (S pos)) [] (etag_of e) [] ((ttag, push_text cur tkids) :: below) errs Hb)
-            as (pos1 & cur1 & kids1 & E1 & E2).
+            as (pos1 & cur1 & kids1 & E1 & E2 & _).
           fold (show body). rewrite E1.
           cbn [EpyInline.loop]. replace (N.eqb RB LB) with false by reflexivity. rewrite N.eqb_refl.
           rewrite (close_simple _ _ Hs).
           destruct (IHn r ltac:(lia) rest (S pos1) [] ttag (push_text cur tkids ++ [NElem (etag_of e) (push_text cur1 kids1)]) below errs Hr)
-            as (pos' & cur' & kids' & E3 & E4).
-          exists pos', cur', kids'. split; [exact E3|]. rewrite E4.
+            as (pos' & cur' & kids' & E3 & E4 & E5).
+          exists pos', cur', kids'. split; [exact E3|]. split; [|intro Hc; eapply closed_tail; cycle 2; [exact Hc | exact E5 | reflexivity]]. rewrite E4.
           rewrite flat_map_app, visible_push_text. cbn [flat_map]. rewrite (visible_simple _ _ Hs), visible_push_text, E2.
           cbn [flat_map rev app]. fold (shown body). rewrite ?app_nil_r; repeat rewrite <- app_assoc; cbn [app]; repeat rewrite <- app_assoc; cbn [app]; reflexivity.
         * (* {body} *)
@@ -126,12 +193,12 @@ Section Colorize.
           fold (show body). rewrite (loop_open_lit _ _ _ _ _ _ _ Hp).
           set (pk := push_text cur tkids). assert (Hpk : flat_map visible pk = flat_map visible tkids ++ rev cur) by apply visible_push_text.
           destruct (IHn body ltac:(lia) (RB :: show r ++ rest) (S pos) [] TgLitbrace [] ((ttag, pk) :: below) errs Hb)
-            as (pos1 & cur1 & kids1 & E1 & E2).
+            as (pos1 & cur1 & kids1 & E1 & E2 & _).
           rewrite E1. cbn [EpyInline.loop]. replace (N.eqb RB LB) with false by reflexivity. rewrite N.eqb_refl.
           cbn [close_elem].
           destruct (IHn r ltac:(lia) rest (S pos1) [] ttag (pk ++ ([NText [LB]] ++ push_text cur1 kids1 ++ [NText [RB]])) below errs Hr)
-            as (pos' & cur' & kids' & E3 & E4).
-          exists pos', cur', kids'. split; [exact E3|]. rewrite E4.
+            as (pos' & cur' & kids' & E3 & E4 & E5).
+          exists pos', cur', kids'. split; [exact E3|]. split; [|intro Hc; eapply closed_tail; cycle 2; [exact Hc | exact E5 | reflexivity]]. rewrite E4.
           rewrite !flat_map_app, Hpk, visible_push_text, E2. cbn [flat_map visible rev app]. fold (shown body).
           rewrite ?app_nil_r; repeat rewrite <- app_assoc; cbn [app]; repeat rewrite <- app_assoc; cbn [app]; reflexivity.
         * (* E{code} *)
@@ -157,8 +224,8 @@ Section Colorize.
             destruct code as [|c1 [|c2 code]]; try discriminate. exists c1. split; reflexivity. }
           destruct Hclose as (c & Hc1 & Hc2). rewrite Hc2.
           destruct (IHn r ltac:(cbn [mk_size] in Hsz; lia) rest (S (S (S pos) + length code)) [] ttag (push_text cur tkids ++ [NText [c]]) below errs Hr)
-            as (pos' & cur' & kids' & E3 & E4).
-          exists pos', cur', kids'. split; [exact E3|]. rewrite E4, Hc1.
+            as (pos' & cur' & kids' & E3 & E4 & E5).
+          exists pos', cur', kids'. split; [exact E3|]. split; [|intro Hc; eapply closed_tail; cycle 2; [exact Hc | exact E5 | reflexivity]]. rewrite E4, Hc1.
           rewrite flat_map_app, visible_push_text. cbn [flat_map visible rev app]. rewrite <- !app_assoc. reflexivity.
         * (* S{name} *)
           cbn [wf1] in Hm. unfold valid_symbol in Hm. apply andb_true_iff in Hm. destruct Hm as [Hm Hne].
@@ -176,16 +243,82 @@ Section Colorize.
           rewrite Hk. cbn [etag_of close_elem].
           destruct (assoc_text name epy_symbols) as [cp|] eqn:Es; [|discriminate].
           destruct (IHn r ltac:(cbn [mk_size] in Hsz; lia) rest (S (S (S pos) + length name)) [] ttag (push_text cur tkids ++ [NElem TgSymbol [NText name]]) below errs Hr)
-            as (pos' & cur' & kids' & E3 & E4).
-          exists pos', cur', kids'. split; [exact E3|]. rewrite E4.
+            as (pos' & cur' & kids' & E3 & E4 & E5).
+          exists pos', cur', kids'. split; [exact E3|]. split; [|intro Hc; eapply closed_tail; cycle 2; [exact Hc | exact E5 | reflexivity]]. rewrite E4.
           rewrite flat_map_app, visible_push_text. cbn [flat_map visible]. rewrite Es. cbn [rev app]. rewrite <- !app_assoc. reflexivity.
+        * (* u{label tail <tgt>} *)
+          rewrite wf1_ML in Hm. repeat (apply andb_true_iff in Hm; destruct Hm as [Hm ?]).
+          rename H into Hgt, H0 into Htgnb, H1 into Hws, H2 into Htail, H3 into Hcl, H4 into Hlab.
+          destruct (link_region_tag u Hm) as (Hup & e & He & Hlt & Htag). destruct (upper_not_brace u Hup) as [U1 U2].
+          rewrite mk_size_ML in Hsz.
+          cbn [show1 shown1 app]. rewrite <- !app_assoc. cbn [app].
+          cbn [EpyInline.loop]. rewrite U1, U2. cbn [EpyInline.loop]. rewrite N.eqb_refl. rewrite Hup, He.
+          fold (show label). repeat rewrite <- app_assoc. cbn [app].
+          destruct (IHn label ltac:(lia) (tail ++ ws ++ 60%N :: tgt ++ 62%N :: RB :: show r ++ rest) (S (S pos)) [] (etag_of e) []
+                        ((ttag, push_text cur tkids) :: below) errs Hlab) as (pos1 & cur1 & kids1 & E1 & E2 & E0).
+          rewrite E1.
+          assert (Hc1 : cur1 = []) by (rewrite (E0 Hcl); destruct label; reflexivity). subst cur1.
+          set (plain := tail ++ ws ++ 60%N :: tgt ++ [62%N]).
+          assert (Hpl : no_brace plain = true).
+          { unfold plain, no_brace. unfold tail_ok in Htail. apply andb_true_iff in Htail. destruct Htail as [Htail _].
+            apply andb_true_iff in Htail. destruct Htail as [Htail _].
+            apply forallb_app_true; [exact Htail|]. apply forallb_app_true; [apply spaces_no_brace; exact Hws|].
+            cbn [forallb]. replace (negb (N.eqb 60 LB) && negb (N.eqb 60 RB)) with true by reflexivity. cbn [andb].
+            apply forallb_app_true; [exact Htgnb | reflexivity]. }
+          replace (tail ++ ws ++ 60%N :: tgt ++ 62%N :: RB :: show r ++ rest) with (plain ++ RB :: show r ++ rest)
+            by (unfold plain; rewrite <- !app_assoc; cbn [app]; rewrite <- !app_assoc; reflexivity).
+          rewrite (loop_plain plain _ _ _ _ _ Hpl). rewrite app_nil_r.
+          cbn [EpyInline.loop]. replace (N.eqb RB LB) with false by reflexivity. rewrite N.eqb_refl.
+          rewrite push_text_rev by (unfold plain; destruct tail; [destruct ws|]; discriminate).
+          assert (Hclose : exists tg, close_elem target_split link_target (etag_of e) (kids1 ++ [NText plain])
+                           = ([NElem (etag_of e) [NElem TgName (kids1 ++ [NText tail]); NElem TgTarget [NText tg]]], None)).
+          { destruct (H_target _ _ Hgt) as (tg & Htg). exists tg. rewrite Hlt in *.
+            destruct Htag as [Ht | Ht]; rewrite Ht in *; cbn [close_elem]; unfold colorize_link;
+              rewrite last_is_text_snoc; unfold plain; rewrite (H_split _ _ _ _ Hgt Htail Hws), Htg; reflexivity. }
+          destruct Hclose as (tg & Hclose). rewrite Hclose.
+          destruct (IHn r ltac:(lia) rest (S (pos1 + length plain)) [] ttag
+                        (push_text cur tkids ++ [NElem (etag_of e) [NElem TgName (kids1 ++ [NText tail]); NElem TgTarget [NText tg]]])
+                        below errs Hr) as (pos' & cur' & kids' & E3 & E4 & E5).
+          exists pos', cur', kids'. split; [exact E3|]. split; [|intro Hc; eapply closed_tail; cycle 2; [exact Hc | exact E5 | reflexivity]].
+          rewrite E4. rewrite flat_map_app, visible_push_text. cbn [flat_map].
+          assert (Hvis : visible (NElem (etag_of e) [NElem TgName (kids1 ++ [NText tail]); NElem TgTarget [NText tg]])
+                         = flat_map visible kids1 ++ tail).
+          { destruct Htag as [Ht | Ht]; rewrite Ht; cbn [visible flat_map]; rewrite flat_map_app; cbn [flat_map visible];
+              rewrite ?app_nil_r; reflexivity. }
+          rewrite Hvis. cbn [rev app] in E2. rewrite app_nil_r in E2. rewrite E2.
+          cbn [flat_map rev app]. fold (shown label).
+          rewrite ?app_nil_r; repeat rewrite <- app_assoc; cbn [app]; repeat rewrite <- app_assoc; cbn [app]; reflexivity.
+        * (* u{name} *)
+          cbn [wf1] in Hm. repeat (apply andb_true_iff in Hm; destruct Hm as [Hm ?]).
+          rename H into Hgn, H0 into Hne, H1 into Hnb.
+          destruct (link_region_tag u Hm) as (Hup & e & He & Hlt & Htag). destruct (upper_not_brace u Hup) as [U1 U2].
+          cbn [show1 shown1 app]. rewrite <- !app_assoc. cbn [app].
+          cbn [EpyInline.loop]. rewrite U1, U2. cbn [EpyInline.loop]. rewrite N.eqb_refl. rewrite Hup, He.
+          rewrite (loop_plain name _ _ _ _ _ Hnb). rewrite app_nil_r.
+          cbn [EpyInline.loop]. replace (N.eqb RB LB) with false by reflexivity. rewrite N.eqb_refl.
+          rewrite push_text_rev by (destruct name; [discriminate Hne | discriminate]).
+          assert (Hclose : exists tg, close_elem target_split link_target (etag_of e) ([] ++ [NText name])
+                           = ([NElem (etag_of e) [NElem TgName [NText name]; NElem TgTarget [NText tg]]], None)).
+          { rewrite Hlt in Hgn. destruct (H_name _ _ Hgn) as (Hsp & tg & Htg). exists tg.
+            destruct Htag as [Ht | Ht]; rewrite Ht in *; cbn [close_elem]; unfold colorize_link;
+              rewrite last_is_text_snoc, Hsp; cbn [app]; rewrite Htg; reflexivity. }
+          destruct Hclose as (tg & Hclose). rewrite Hclose.
+          destruct (IHn r ltac:(cbn [mk_size] in Hsz; lia) rest (S (S (S pos) + length name)) [] ttag
+                        (push_text cur tkids ++ [NElem (etag_of e) [NElem TgName [NText name]; NElem TgTarget [NText tg]]])
+                        below errs Hr) as (pos' & cur' & kids' & E3 & E4 & E5).
+          exists pos', cur', kids'. split; [exact E3|]. split; [|intro Hc; eapply closed_tail; cycle 2; [exact Hc | exact E5 | reflexivity]].
+          rewrite E4. rewrite flat_map_app, visible_push_text. cbn [flat_map].
+          assert (Hvis : visible (NElem (etag_of e) [NElem TgName [NText name]; NElem TgTarget [NText tg]]) = name).
+          { destruct Htag as [Ht | Ht]; rewrite Ht; cbn [visible flat_map]; rewrite ?app_nil_r; reflexivity. }
+          rewrite Hvis. cbn [rev app].
+          rewrite ?app_nil_r; repeat rewrite <- app_assoc; cbn [app]; repeat rewrite <- app_assoc; cbn [app]; reflexivity.
   Qed.
 
   Theorem colorize_conserves : forall items, well_formed false items = true ->
     exists tree, colorize target_split link_target (show items) = (tree, []) /\ visible tree = shown items.
   Proof.
     intros items Hwf. unfold colorize.
-    destruct (loop_items (mks_size items) items (le_n _) [] 0 [] TgPara [] [] [] Hwf) as (pos' & cur' & kids' & E1 & E2).
+    destruct (loop_items (mks_size items) items (le_n _) [] 0 [] TgPara [] [] [] Hwf) as (pos' & cur' & kids' & E1 & E2 & _).
     rewrite app_nil_r in E1. rewrite E1. cbn [EpyInline.loop attach_open].
     eexists. split; [reflexivity|]. cbn [visible]. rewrite app_nil_r, visible_push_text, E2. reflexivity.
   Qed.
